@@ -15,14 +15,14 @@ CHUNK = 2
 RULE = ('Cases: files of 2..8 samples (C07 sample styles, so that some k-mers are private to deleted samples); for n<=5 '
         'every non-empty proper subset is deleted (exhaustive over subsets), random subsets above; names given on the command '
         'line or in a names file (one per line; with/without trailing newline; with blank lines between names, where a clean refusal is accepted as well as the exact deletion), in place, with -o, or with -o naming the input file itself.  A few files per run are large (up to ~100k rows, mostly private k-mers).  '
-        'The result is compared with a `ska build` of the remaining samples (differential) and with the model, and every stored field of the two files (per-row counts, container lengths) is compared through the harness; a quarter of the files first pass through `ska weed --filter-ambig-as-missing` with a one-sample threshold (stored files with a history; model only).  Refusal cases '
+        'The result is compared with a `ska build` of the remaining samples (differential) and with the model, and every stored field of the two files (per-row counts, container lengths) is compared through the harness; a quarter of the files first pass through `ska weed --filter-ambig-as-missing` with a one-sample threshold (stored files with a history; model only).  A valid deletion whose -o target cannot be written (missing directory, path is a directory) must not exit 0 without a result, and leaves the input alone.  Refusal cases '
         '(unknown name, all names, all names with one of them repeated) must exit non-zero and leave the file byte-identical.  Non-trivial: at least one k-mer '
         'disappears or at least two non-adjacent columns are removed; distinct = distinct (k, mode, samples, subset, route).')
 ASSUMPTIONS = ['sample names are [A-Za-z0-9_]+ ; a share of names end in .fa/.fasta to exercise name handling',
                'the build of the remaining samples is a run of the same binary (differential); the model is independent']
 REQUIRED = {t: ['route:cli', 'route:file', 'route:file-no-trailing-newline', 'route:file-blank-lines', 'inplace', 'with-o',
                 'refuse:unknown', 'refuse:all', 'refuse:all-with-repeat', 'kmers_removed', 'nonadjacent_deletions', 'width64', 'width128', 'pretreated_files',
-                'stored_rows_compared', 'with-o-naming-the-input-file', 'refusals_with-o-naming-the-input-file', 'files_of_4096+_rows']
+                'stored_rows_compared', 'unwritable_output_refused', 'with-o-naming-the-input-file', 'refusals_with-o-naming-the-input-file', 'files_of_4096+_rows']
             for t in ('quick', 'thorough')}
 
 
@@ -218,6 +218,27 @@ def run_case(desc, ctx):
                 if removed or nonadj:
                     res.nontrivial.append(fingerprint([k, rcmode, samples, dn, route, inplace]))
         if variant == 'rel':
+            # a valid deletion whose result cannot be written (directory missing / the path is a directory): either a
+            # non-zero exit with the input untouched, or - never the case here - a correct result; exit 0 with nothing
+            # written is a silent loss
+            for what in ('missing-directory', 'is-a-directory'):
+                ctx.write('work.skf', original)
+                if what == 'missing-directory':
+                    target = ctx.path('no_such_dir/out')
+                else:
+                    os.makedirs(ctx.path('adir.skf'), exist_ok=True)
+                    target = ctx.path('adir')
+                pd = ctx.sh(b, 'delete', '-s', ctx.path('work.skf'), '-o', target, names[0]) if ns > 1 else None
+                if pd is None:
+                    continue
+                res.evals += 1
+                after = open(ctx.path('work.skf'), 'rb').read()
+                written = os.path.isfile(target + '.skf')
+                if (pd.returncode == 0 and not written) or after != original:
+                    res.violate('C08:unwritable:' + what, 'delete -o %s (%s): exit=%d, result written=%s, input changed=%s'
+                                % (os.path.basename(target), what, pd.returncode, written, after != original), {'names': names})
+                else:
+                    res.count('unwritable_output_refused')
             # refusal cases: unknown name (alone and next to a valid one), all names
             dup = list(names) + [rng.choice(names)]
             rng.shuffle(dup)
